@@ -29,6 +29,7 @@ ASSUMPTIONS = [
 ]
 TRUSTED = ["stdlib argparse, functools, dataclasses", "harness construction of real dataclasses from the JSON tree (c07.build_class)"]
 EXHAUSTIVE = {"quick": False, "thorough": False}
+THOROUGH_ROUNDS = 3   # thorough tier: this many generator passes with derived PRNG states (vcheck)
 MANIFEST = {
     "text": ("Proof (partial). Lean theorems over a model of the rounds of _resolve_subgroups (any nesting depth, induction "
              "on the number of rounds): every resolved subgroup's key is the last value given under an option string "
